@@ -6,12 +6,13 @@ import TracklibVerif.Lemmas.GraphWorld
 import TracklibVerif.Lemmas.GraphWorldQ
 import TracklibVerif.Lemmas.GraphAStarFix
 import TracklibVerif.Lemmas.GraphShared
+import TracklibVerif.Lemmas.GraphMetric
 import Mathlib.Algebra.Order.Group.Int
 /-! # C06 — network shortest distances are the true minimum over permitted walks
 
 Property theorems only (helper lemmas: `Lemmas/Graph.lean`, `Lemmas/GraphStop.lean`, `Lemmas/GraphTable.lean`,
 `Lemmas/GraphSession.lean`, `Lemmas/GraphSessionQ.lean`, `Lemmas/PDict.lean`, `Lemmas/Heapq.lean`, `Lemmas/GraphPD.lean`,
-`Lemmas/GraphAStar.lean`, `Lemmas/GraphAStarFix.lean`, `Lemmas/GraphWorld.lean`, `Lemmas/GraphShared.lean`).
+`Lemmas/GraphAStar.lean`, `Lemmas/GraphAStarFix.lean`, `Lemmas/GraphMetric.lean`, `Lemmas/GraphWorld.lean`, `Lemmas/GraphShared.lean`).
 The model (`Model/Graph.lean`) mirrors `Network.run_routing_forward` in Dijkstra mode and the API functions that
 read its result; `Model/GraphAStar.lean` adds the routing-method API (`setRoutingMethod`, `setAStarWeight`, the A* branch
 as it is after fix c78e3ab — label `g`, queue priority `g + h` —, several `Network` objects with their own settings) — see
@@ -591,6 +592,38 @@ theorem world_astar_call_is_pure [Sub V] [Mul V] [OfNat V 1] (sqrt : V → V) (o
   execObj_astar_eq sqrt o (worldAfter_ok sqrt [] (by intro k o hq; simp at hq) ops k o hk) hm s t hs ht cut ud
 end consistent
 
+section metric
+variable {F : Type} [Field F] [LinearOrder F] [IsStrictOrderedRing F]
+
+/-- **the consistency hypothesis, from the configuration.** `Node.distanceTo` is the Euclidean distance of the coordinates
+(`sqrt` any square root on the non-negative elements of the ordered field: `IsSqrt`), which satisfies the triangle inequality
+(`distanceTo_triangle`, Cauchy–Schwarz). So on an object in A* mode with `0 ≤ astar_wgt` whose every permitted arc weighs at
+least `astar_wgt` × the straight-line distance between its ends — exactly the predicate `heuristic_consistent` of the harness'
+oracle — the heuristic towards ANY target `t` is consistent and smallest at `t`. -/
+theorem astar_heuristic_consistent {sqrt : F → F} (hsq : IsSqrt sqrt) (o : NetObj F) (hm : o.mode = 1) (hw : 0 ≤ o.wgt)
+    (hedge : ∀ u v w, Arc o.sess.net u v w → o.wgt * distanceTo sqrt (o.pos u) (o.pos v) ≤ w) (t : Nat) :
+    Consistent o.sess.net (o.h sqrt (some t)) ∧ (∀ v, o.h sqrt (some t) t ≤ o.h sqrt (some t) v) := by
+  unfold NetObj.h
+  rw [hm]
+  exact heuristicOf_consistent hsq o.sess.net o.pos o.wgt hw t hedge
+
+/-- **the property for A\* at full strength**, hypotheses on the configuration only: in any program over several `Network`
+objects, on an object whose own routing method is A* at that moment, with `0 ≤ astar_wgt` and every permitted arc of its
+current graph weighing at least `astar_wgt` × the straight-line distance between its ends, `shortest_distance(s, t[, cut])` is
+the minimum weight over the permitted walks — the sentinel iff there is none; with a cut-off the true distance whenever it
+is within it. -/
+theorem world_astar_metric_distance_correct {sqrt : F → F} (hsq : IsSqrt sqrt) (ops : List (WorldOp F)) (k : Nat)
+    (o : NetObj F) (hk : (worldAfter sqrt [] ops)[k]? = some o) (hm : o.mode = 1) (hw : 0 ≤ o.wgt)
+    (hedge : ∀ u v w, Arc o.sess.net u v w → o.wgt * distanceTo sqrt (o.pos u) (o.pos v) ≤ w)
+    (s t : Nat) (hs : s ∈ o.sess.order) (ht : t ∈ o.sess.order) (cut : Option F) (ud : Bool) :
+    ∃ d, (execWorld sqrt (worldAfter sqrt [] ops) (.on k (.call (.dist s t cut ud)))).2 = .val d ∧
+      (∀ y, IsDist o.sess.net s t y → Within cut y → d = some y) ∧ (¬ Reachable o.sess.net s t → d = none) ∧
+      (cut = none → ∀ y, d = some y ↔ IsDist o.sess.net s t y) ∧
+      (cut = none → (d = none ↔ ¬ Reachable o.sess.net s t)) :=
+  world_astar_distance_correct sqrt ops k o hk hm s t hs ht cut ud
+    (astar_heuristic_consistent hsq o hm hw hedge t).1 (astar_heuristic_consistent hsq o hm hw hedge t).2
+end metric
+
 /-- the straight road 0 –10– 1 –10– 2 with nodes at x = 0, 10, 20 and the heuristic `h v` = distance to node 2 -/
 def road : Net Int := { n := 3, edges := [⟨0, 0, 1, 10, 0⟩, ⟨1, 1, 2, 10, 0⟩] }
 def roadH : Nat → Int := fun v => if v = 0 then 20 else if v = 1 then 10 else 0
@@ -731,5 +764,10 @@ example : ((runWorld sqrtRat [] twoRoads).drop 7).map (fun o => match o with | .
 example : (answersOn 0 twoRoads (runWorld sqrtRat [] twoRoads)).length = 3 := by decide +kernel
 /-- `math.sqrt` on rational squares, as the exact stream uses it -/
 example : sqrtRat (25 / 4) = 5 / 2 ∧ isSquareRat (25 / 4) = true ∧ isSquareRat 2 = false := by decide +kernel
+
+/-- the hypotheses of `world_astar_metric_distance_correct` hold on the second road of `twoRoads` (weights = straight-line
+lengths, `astar_wgt = 1`): every arc weighs at least `astar_wgt` × the distance between its ends -/
+example : ∀ e ∈ [(0, 1, (10 : Rat)), (1, 0, 10), (1, 2, 10), (2, 1, 10)],
+    (1 : Rat) * distanceTo sqrtRat (roadPos e.1) (roadPos e.2.1) ≤ e.2.2 := by decide +kernel
 
 end TV.C06
